@@ -583,6 +583,9 @@ def check_L10(ctx, rep):
     if check_bound_tests(cr, rep) < 3:
         from core import Broken
         raise Broken('L10.B: fewer than 3 comparisons against a const generic bound found (BoundedSet expected)')
+    if check_flag_across_swap(cr, rep) < 1:
+        from core import Broken
+        raise Broken('L10.W: no *_mut operation that swaps the receiver found (Set::join_mut expected)')
     if check_partial_cmp_propagation(cr, rep) < 20:
         from core import Broken
         raise Broken('L10.PO: fewer than 20 intermediate comparisons found in the hand-written partial_cmp impls of the lattice module')
@@ -1024,3 +1027,46 @@ def _yields_none(e):
             s_ = e['ss'][-1]
             return s_.get('k') in ('semi', 'expr') and _yields_none(s_['e'])
     return False
+
+
+# ------------------------------------------------------------------ L10.W  change flag across a swap of the receiver
+
+def check_flag_across_swap(cr, rep):
+    """a `*_mut` operation that swaps the receiver with the argument (to iterate the smaller side) cannot learn from the operations
+    after the swap whether the *original* receiver changed - inserting the old receiver into the argument says nothing about what
+    the argument brought. The change flag of such an operation mentions a value recorded before the swap (`let self_len = ..`)."""
+    n = 0
+    for path, b in sorted(cr.bodies.items()):
+        if b['name'] not in ('join_mut', 'meet_mut') or not (b.get('trait_of') or '').endswith('lattice::Lattice') or not b.get('impl_of'):
+            continue
+        self_id = b['params'][0].get('id') if b['params'] else None
+        order = {id(x): i for i, (x, _) in enumerate(walk(b['tree']))}
+        swaps = []
+        for x, _ in walk(b['tree']):
+            c = callee(x)
+            if x.get('k') == 'call' and c and cname(c).endswith('mem::swap') and any((root_local(a) or {}).get('id') == self_id for a in x['a']):
+                swaps.append(x)
+        if not swaps:
+            continue
+        first_swap = min(order[id(x)] for x in swaps)
+        lets = {}
+        for x, _ in walk(b['tree']):
+            if x.get('k') == 'let' and 'i' in x and x['p'].get('k') == 'bind':
+                lets[x['p']['id']] = order[id(x)]
+        t = strip(b['tree'])
+        tail = t.get('e') if t.get('k') == 'block' else None
+        rets = [tail] if tail is not None else []
+        rets += [x['e'] for x, _ in walk(b['tree']) if x.get('k') == 'ret' and 'e' in x]
+        for r in rets:
+            n += 1
+            mentioned = [y['id'] for y, _ in walk(r) if y.get('k') == 'path' and y.get('res') == 'local' and y['id'] in lets]
+            pre = [i for i in mentioned if lets[i] < first_swap]
+            ok = bool(pre)
+            rep.inst('L10.W', '%s: the receiver is swapped with the argument; the returned flag mentions a value recorded before the swap: %s' % (path, ok))
+            rep.functions.add(path)
+            if not ok:
+                rep.viol('L10.W', path, 'flag-after-swap',
+                         'the receiver is swapped with the argument and the change flag is computed from what happens afterwards only: when the '
+                         'receiver was the smaller side (a strict subset), nothing new is inserted after the swap and the operation reports '
+                         '"unchanged" although the receiver grew', loc=cr.loc(r))
+    return n
